@@ -14,6 +14,7 @@ use std::collections::HashSet;
 pub fn gens() -> Vec<Gen> {
     vec![
         Gen { name: "c10.disclosure_lists", prop: "C10", tags: &["parse", "empty", "disclosure", "compact", "src/lib.rs"], cases: cases_lists, check },
+        Gen { name: "c10.last_segment", prop: "C10", tags: &["last", "segment", "trailing", "parse_compact", "kb_jwt"], cases: cases_last_segment, check },
         Gen { name: "c10.kb", prop: "C10", tags: &["kb", "sd_hash", "verify_key_binding", "src/verifier.rs"], cases: cases_kb, check },
         Gen { name: "c10.tampered_jwt", prop: "C10", tags: &["tamper", "jwt"], cases: cases_tampered, check },
         Gen { name: "c10.large", prop: "C10", tags: &["large", "many", "parts", "limit"], cases: cases_large, check },
@@ -65,6 +66,38 @@ fn cases_lists(rng: &mut Rng, sink: &mut dyn FnMut(J) -> bool) {
             c["list"] = J::Array(l.clone());
             if !sink(c) {
                 return;
+            }
+        }
+    }
+}
+
+/// Compact strings whose last `~` segment (the key-binding slot) is a disclosure, garbage, empty
+/// or a real KB-JWT, against the JSON envelope carrying the same (jwt, disclosures, kb_jwt).
+fn cases_last_segment(_rng: &mut Rng, sink: &mut dyn FnMut(J) -> bool) {
+    let n_g = 8usize;
+    let g = |i: usize| json!({ "g": i });
+    let mut kb_items: Vec<J> = (0..n_g).map(g).collect();
+    kb_items.extend([
+        json!({"forge2": "x"}), json!({"forge3": ["role", "admin"]}), json!({"raw": "W10"}), json!({"raw": "WyJhIl0"}), json!({"raw": "e30"}), json!({"raw": "!!"}),
+        json!({"raw": "bnVsbA"}), json!({"raw": "a.b.c"}), json!({"raw": "eyJhbGciOiJFUzI1NiIsInR5cCI6ImtiK2p3dCJ9.e30.AAAA"}), json!({"raw": " "}), json!({"other": 0}), json!({"pad": 0, "n": 1}),
+    ]);
+    let mut n = 0usize;
+    for kb_item in &kb_items {
+        let skip = kb_item["g"].as_u64().map(|v| v as usize);
+        let all_but: Vec<J> = (0..n_g).filter(|i| Some(*i) != skip).map(g).collect();
+        for list in [all_but.clone(), vec![], vec![g(0)], (0..n_g).map(g).collect::<Vec<_>>()] {
+            for expect_kb in [false, true] {
+                n += 1;
+                let mut cfg = gen_c03::credential(0);
+                cfg.holder = if expect_kb { Some("es256".into()) } else { None };
+                cfg.alg = ["ES256", "EdDSA", "HS256"][n % 3].into();
+                let mut c = cfg.to_json();
+                c["kind"] = json!("list");
+                c["list"] = J::Array(list.clone());
+                c["kb_item"] = kb_item.clone();
+                if !sink(c) {
+                    return;
+                }
             }
         }
     }
@@ -276,6 +309,58 @@ fn compare_formats(p: &Parts, key: &J, aud: Option<&str>, nonce: Option<&str>) -
     Verdict::Pass
 }
 
+/// Holders built from the compact and the JSON form of the same triple: same constructor outcome
+/// and the same disclosures for "select everything" and for each single top-level claim.
+fn compare_holders(p: &Parts, claims: &J) -> Verdict {
+    if p.jwt.contains('~') || p.disclosures.iter().any(|d| d.contains('~')) || p.kb.as_deref().map(|k| k.contains('~')).unwrap_or(false) {
+        return Verdict::Trivial;
+    }
+    let mut q = p.clone();
+    if q.kb.as_deref() == Some("") {
+        q.kb = None;
+    }
+    let hc = sut::holder_new(&q.to_compact(), "compact");
+    let hj = sut::holder_new(&q.to_json(), "json");
+    let (mut hc, mut hj) = match (hc, hj) {
+        (Out::Ok(a), Out::Ok(b)) => (a, b),
+        (Out::Err(_), Out::Err(_)) => return Verdict::Pass,
+        (a, b) => return fail(format!("SDJWTHolder::new: compact form -> {}; JSON form -> {}", a.brief(), b.brief()), "the same outcome for both serializations"),
+    };
+    let mut selections = vec![select_all(claims), Map::new()];
+    if let Some(o) = claims.as_object() {
+        for k in o.keys() {
+            let mut m = Map::new();
+            m.insert(k.clone(), J::Bool(true));
+            selections.push(m);
+        }
+    }
+    for sel in selections {
+        let a = sut::present(&mut hc, &sel, None);
+        let b = sut::present(&mut hj, &sel, None);
+        match (&a, &b) {
+            (Out::Err(_), Out::Err(_)) => {}
+            (Out::Ok(x), Out::Ok(y)) => {
+                let (Some(px), Some(py)) = (Parts::parse(x, "compact"), Parts::parse(y, "json")) else { return fail("a presentation does not parse", "well-formed") };
+                let sx: HashSet<&String> = px.disclosures.iter().collect();
+                let sy: HashSet<&String> = py.disclosures.iter().collect();
+                if sx != sy {
+                    return fail(
+                        format!("selection {}: holder built from the compact form presents {} disclosures, holder built from the JSON form {}", short(&jstr(&J::Object(sel.clone())), 200), sx.len(), sy.len()),
+                        "holders built from either form select the same disclosures",
+                    );
+                }
+            }
+            _ => {
+                return fail(
+                    format!("selection {}: holder built from the compact form -> {}; from the JSON form -> {}", short(&jstr(&J::Object(sel.clone())), 200), a.brief(), b.brief()),
+                    "the same outcome from holders built from either form",
+                )
+            }
+        }
+    }
+    Verdict::Pass
+}
+
 pub fn check(case: &J) -> Verdict {
     let Some(cfg) = Cfg::from_json(case) else { return Verdict::Trivial };
     let own_key = J::String(cfg.alg.clone());
@@ -292,7 +377,17 @@ pub fn check(case: &J) -> Verdict {
                 return Verdict::Trivial;
             };
             let kbs = kb.as_ref().and_then(|k| make_kb(&crate::keys::holder_enc(&k.holder), crate::keys::holder_alg(&k.holder), Some("kb+jwt"), &honest_kb_claims(k, &issued.jwt, &l)));
-            let p = Parts { jwt: issued.jwt.clone(), disclosures: l, kb: kbs };
+            let mut p = Parts { jwt: issued.jwt.clone(), disclosures: l, kb: kbs };
+            if let Some(item) = case.get("kb_item") {
+                // an arbitrary string in the key-binding slot (last compact segment / kb_jwt member)
+                let other = if item.get("other").is_some() { cfg.issue_parts().map(|(_, q)| q.disclosures).unwrap_or_default() } else { vec![] };
+                let Some(text) = gen_c03::resolve_item(item, &issued.disclosures, &other) else { return Verdict::Trivial };
+                p.kb = Some(text);
+                // holders built from either form must offer the same claims
+                if let v @ Verdict::Fail { .. } = compare_holders(&p, &cfg.claims) {
+                    return v;
+                }
+            }
             compare_formats(&p, &own_key, aud.as_deref(), nonce.as_deref())
         }
         "presented" => {
